@@ -121,6 +121,18 @@ pub fn make_case_kind(mut plan: Plan, kind_index: usize, decoy_first: bool, befo
                         plan.spec.signed_headers.retain(|h| h != "x-amz-date" && h != "date" && h != "x-amz-security-token");
                         plan.cfg.reqs = Reqs::default();
                         plan.spec.use_date_header = kind == XAmzDateBesideDateHeader;
+                        // ... or, when the decoy is in place before signing, sign one, the other or both date headers:
+                        // which of them is covered by the signature must not change which one supplies the timestamp
+                        if before_signing && matches!(kind, DateHeaderBesideXAmzDate | XAmzDateBesideDateHeader) {
+                            let pick = decoy_delta_s.unsigned_abs() % 4;
+                            if pick & 1 != 0 {
+                                plan.spec.signed_headers.push("date".into());
+                            }
+                            if pick & 2 != 0 {
+                                plan.spec.signed_headers.push("x-amz-date".into());
+                            }
+                            plan.spec.signed_headers.sort();
+                        }
                     }
                     if matches!(kind, TokenHeader | QToken | QueryTokenOnHeaderCarrier) && plan.spec.token.is_none() {
                         plan.spec.token = Some("genuine/token+1==".into());
@@ -180,7 +192,18 @@ fn apply_dup(dc: &DupCase, req: &mut WireRequest, signed: bool) {
     let enc = |s: &str| crate::model::canon::pct_encode(s.as_bytes());
     let decoy_cred = format!("AKIADECOY0000000/{}/{}/{}/aws4_request", p.instant.date8(), p.cfg.region, p.cfg.service);
     match dc.kind {
-        AuthHeaderOtherScheme => insert_header(req, "Authorization", "Basic dXNlcjpwYXNz", dc.decoy_first, "authorization"),
+        AuthHeaderOtherScheme => {
+            // another scheme, or a lone parameter as a gateway that splits list-valued headers at commas would deliver it
+            let v = match dc.decoy_delta_s.unsigned_abs() % 6 {
+                0 => "Basic dXNlcjpwYXNz".to_string(),
+                1 => format!("Signature={}", "f".repeat(64)),
+                2 => format!("Credential={}", decoy_cred),
+                3 => "SignedHeaders=host;x-decoy".to_string(),
+                4 => "Bearer token=abc".to_string(),
+                _ => format!("Signature={}, Credential={}", "f".repeat(64), decoy_cred),
+            };
+            insert_header(req, "Authorization", &v, dc.decoy_first, "authorization")
+        }
         AuthHeaderAws4Decoy => insert_header(
             req,
             "Authorization",
